@@ -651,7 +651,9 @@ def evaluate__idiv_operator(self: XPathToken, context: ta.ContextType = None) ->
         raise self.error('XPST0005')
 
     try:
-        if math.isinf(op1):
+        if isinstance(op1, (int, Decimal)) and isinstance(op2, (int, Decimal)):
+            pass  # exact operands are never INF or NaN (math.isinf overflows on huge integers)
+        elif math.isinf(op1):
             raise self.error('FOAR0001' if op2 == 0 else 'FOAR0002')
         elif math.isnan(op1) or math.isnan(op2):
             raise self.error('FOAR0002')
@@ -659,6 +661,8 @@ def evaluate__idiv_operator(self: XPathToken, context: ta.ContextType = None) ->
         if isinstance(context, XPathSchemaContext):
             return 1
         raise self.error('XPTY0004', err) from None
+    except OverflowError:
+        raise self.error('FOAR0002') from None
 
     try:
         if op2 == 0:
